@@ -278,7 +278,7 @@ func ResolveAnchors(p *Prog) *Anchors {
 		if callsOnError && a.StatusOnError == nil {
 			a.StatusOnError = fb
 		}
-		if callsMkdirAll && a.Mkdir == nil {
+		if callsMkdirAll && a.Mkdir == nil && !(fb.Decl.Name.Name == "RunTask" && recvOf(fb) == "Executor") {
 			a.Mkdir = fb
 		}
 		_, _ = semSendFirst, semRecvFirst
@@ -330,7 +330,6 @@ func ResolveAnchors(p *Prog) *Anchors {
 	a.need("task compiler (function building the ast.Task literal)", a.CompiledTask)
 	a.need("variable resolver (Compiler method calling env.GetEnviron)", a.GetVariables)
 	a.need("status rollback (function calling SourcesCheckable.OnError)", a.StatusOnError)
-	a.need("task mkdir (function calling os.MkdirAll in package task)", a.Mkdir)
 	a.need("slot acquire (sends to Executor.concurrencySemaphore)", a.Acquire)
 	a.need("slot release (receives from Executor.concurrencySemaphore)", a.Release)
 	a.need("platform test (ranges over []*ast.Platform)", a.PlatformTest)
